@@ -96,6 +96,13 @@ PROPS = {
         explanation="PARTIAL (a theorem cannot exhibit the Go scheduler or memory model). Theorems: the access table extracted from the Go sources on every run (which package-level variable each function of reader/writer/formats reads, writes, calls atomically or publishes, and under which mutex) satisfies the lock discipline; for any table that passes, any two thread accesses to the same variable with a write are both atomic sync operations or hold a common mutex one of them exclusively, and no package-level object is published into instances; sequential registry semantics (lookup after register/unregister, independence across formats). Tie: regenerated table (syntactic, fail-closed extractor); sequential registry histories vs the registry model; oracle: race-detector build stressing every entry-point mix from 16 goroutines with per-call comparison against sequential results.",
         assumptions=["the lockset extractor is syntactic (trusted to see every access to the listed package-level variables; aborts on constructs it does not understand)", "mutual exclusion of sync.RWMutex, atomicity of sync.Map/sync.Once methods and the Go memory model are trusted, not modelled", "data races in code reached through instances (not package-level state) are visible only to the race-detector stress"],
     ),
+    "C01": dict(
+        props_v="Props/C01.v",
+        corr_v=["Corr/CheckSpdx.v"],
+        n_quick=70, n_thorough=2500,
+        explanation="Theorems: (graph) every document of the SPDX-representable class - any graph shape - comes back with the same nodes and package/file kinds, the same typed edges (one target per edge) and the same roots; all 44 relationship types and all 16 shared checksum algorithms are inverse pairs of the generated tables; (attributes) names, versions, URLs, licence/copyright texts with the NOASSERTION/NONE/trim conventions, comments, summary, description, attribution, dates to the second (premise: RFC 3339 parse(format t) = t to the second), first supplier and first originator; native primary purposes, the eight SPDX-carried external reference types (OTHER otherwise) and the four identifier kinds by computation over tables regenerated from the code; second pass: read-back edges are a fixed point. Tie: three seams compared with the real code on every run (Serialize struct, tools-golang JSON layer, Unserialize) on random class documents at random indentation; oracle: the statement itself through the public writer/reader incl. a second pass.",
+        assumptions=["modelled: serializer_spdx23.go, unserializer_spdx23.go and the tools-golang JSON layer as struct-level functions (Model/Spdx.v); RFC 3339 formatting/parsing is an oracle (table per case; premise in the theorems)", "per-node equality of checksum maps, identifier maps and external-reference lists after the round trip is validated by the seams and the oracle, the theorems cover their key/type tables"],
+    ),
 }
 
 NOT_APPLICABLE = {}
